@@ -143,6 +143,20 @@ theorem fp_rand_masked_bits (bytes : List UInt8) (w fpBits : Nat) :
     (maskTop (digitsOf bytes w (digitsFor w fpBits)) (fpBits % w)) (by simp [bnRand])
   exact h
 
+/-- fb_rand: the polynomial has degree below m = RLC_FB_BITS (value of the digit vector below 2^m) when RLC_FB_DIGS = ⌈m/w⌉, it has exactly
+    RLC_FB_DIGS digits, and the state advances exactly as ONE draw of RLC_FB_DIGS·(w/8) bytes — for every byte source and state -/
+theorem fb_rand_degree {σ : Type} (draw : σ → Nat → Option (List UInt8 × σ)) (w fbBits : Nat) (s s' : σ) (dp : List Nat)
+    (h : fbRand draw w (digitsFor w fbBits) fbBits s = some (dp, s')) :
+    valDigits w dp < 2 ^ fbBits ∧ dp.length = digitsFor w fbBits ∧
+      ∃ bytes, draw s (digitsFor w fbBits * (w / 8)) = some (bytes, s') := by
+  unfold fbRand at h
+  split at h
+  · simp at h
+  · next bytes s1 hd =>
+    simp only [Option.some.injEq, Prod.mk.injEq] at h
+    obtain ⟨rfl, rfl⟩ := h
+    exact ⟨fp_rand_masked_bits bytes w fbBits, by rw [maskTop_length, digitsOf_length], bytes, hd⟩
+
 example : ∃ dp, bnRand (σ := Unit) (fun _ n => some (List.replicate n 255, ())) 64 34 () 65 = some (dp, ()) := ⟨_, rfl⟩
 
 
